@@ -73,7 +73,7 @@ var properties = map[string]propSpec{
 	},
 	"C03": {
 		Bounds: [2]map[string]any{
-			{"rows": "0..3 (0..2 with two grouping columns / NULLs)", "cells": "any non-NaN float64, optional NULL values", "queries": "GROUP BY 1-2 columns with COUNT(*) COUNT(col) SUM MIN MAX AVG, WHERE, HAVING on COUNT/SUM/MIN, ORDER BY over groups; whole-table aggregates with/without WHERE; same function on two columns; NULL and missing cells in one- and two-column grouping keys; aggregates over the grouping column; mixed-case column names", "map iteration": "every order at ExecGroupBy's map ranges"},
+			{"rows": "0..3 (0..2 with two grouping columns / NULLs)", "cells": "any non-NaN float64, optional NULL values", "queries": "GROUP BY 1-2 columns with COUNT(*) COUNT(col) SUM MIN MAX AVG, WHERE, HAVING on COUNT/SUM/MIN, ORDER BY over groups; whole-table aggregates with/without WHERE; same function on two columns; NULL and missing cells in one- and two-column grouping keys; aggregates over the grouping column; mixed-case column names; LIMIT 0..3 OFFSET 0..2 over groups of 3..5 rows with keys from {0,1,2}", "map iteration": "every order at ExecGroupBy's map ranges"},
 			{"rows": "0..4 (0..3)", "cells": "same", "queries": "same", "map iteration": "same"},
 		},
 		Outside: []string{"aggregates over strings", "NaN group keys", "SUM's ParseFloat(Sprintf(x)) round trip is an axiom (shortest-representation guarantee)"},
@@ -87,10 +87,10 @@ var properties = map[string]propSpec{
 	},
 	"C05": {
 		Bounds: [2]map[string]any{
-			{"rows": "0..3", "limit,offset": "any int in [0,2^63)", "sort keys": "1-2 numeric keys × ASC/DESC/default, one string key ≤2 bytes, nullable numeric key; renamed, computed and shadowing aliases as sort keys (with a window)", "integer keys": "int64/int/uint64 sort keys at 2^53 and MaxInt64-3 in four input orders", "literal spellings": "LIMIT/OFFSET with leading zeros in both spellings on 12..13 rows", "pipeline": "[WHERE] × {plain, DISTINCT, GROUP BY, GROUP BY + HAVING} × [ORDER BY first or second output column ASC/DESC] × [LIMIT 0..3 OFFSET 0..3] on 0..2 rows against a reference evaluator of the whole pipeline"},
+			{"rows": "0..3", "limit,offset": "any int in [0,2^63)", "sort keys": "1-2 numeric keys × ASC/DESC/default, one string key ≤2 bytes, nullable numeric key; renamed, computed and shadowing aliases as sort keys (with a window)", "many rows": "13..16 concrete rows, keys (g ASC, v DESC) with ties", "integer keys": "int64/int/uint64 sort keys at 2^53 and MaxInt64-3 in four input orders", "literal spellings": "LIMIT/OFFSET with leading zeros in both spellings on 12..13 rows", "pipeline": "[WHERE] × {plain, DISTINCT, GROUP BY, GROUP BY + HAVING} × [ORDER BY first or second output column ASC/DESC] × [LIMIT 0..3 OFFSET 0..3] on 0..2 rows against a reference evaluator of the whole pipeline"},
 			{"rows": "0..4", "limit,offset": "same", "sort keys": "same"},
 		},
-		Outside: []string{"sort inputs above 12 elements (pdqsort paths; insertionSortLessFunc is what runs below)", "NaN sort keys"},
+		Outside: []string{"symbolic sort inputs above 12 elements (13..16 concrete rows run through pdqsort)", "NaN sort keys"},
 	},
 	"C06": {
 		Bounds: [2]map[string]any{
